@@ -271,9 +271,13 @@ func (s *linkParser) parseReferenceLink(parent ast.Node, last *linkLabelState,
 			maybeReference = append(maybeReference, block.Value(s)...)
 		}
 	}
-	if util.IsBlank(maybeReference) { // collapsed reference link
+	if len(maybeReference) == 0 { // collapsed reference link
 		s := text.NewSegment(last.Segment.Stop, orgpos.Start-1)
 		maybeReference = block.Value(s)
+	} else if util.IsBlank(maybeReference) {
+		// brackets with only white space between them are not a link label: what precedes can
+		// still be a shortcut reference (the caller restores the position)
+		return nil, false
 	}
 	// CommonMark spec says:
 	//  > A link label can have at most 999 characters inside the square brackets.
